@@ -31,7 +31,13 @@ FLAVOURS = {
     # ASan + UBSan, vector annotations so reads in [size, capacity) are caught too
     'asan': dict(cxx='g++', flags=['-O1', '-fsanitize=address,undefined', SAN_OFF, '-fno-sanitize-recover=all',
                                    '-D_GLIBCXX_SANITIZE_VECTOR'], ld=[]),  # the compile flags (which also reach the link step) already select the runtimes
+    # the repository's own configuration (RelWithDebInfo: -O2 -DNDEBUG) under the same sanitizers: what a user's release build
+    # compiles, incl. anything guarded by NDEBUG and anything only the optimiser brings out
+    'asanR': dict(cxx='g++', flags=['-O2', '-DNDEBUG', '-fsanitize=address,undefined', SAN_OFF, '-fno-sanitize-recover=all',
+                                    '-D_GLIBCXX_SANITIZE_VECTOR'], ld=[]),
     'tsan': dict(cxx='g++', flags=['-O1', '-fsanitize=thread'], ld=['-pthread']),
+    'tsanR': dict(cxx='g++', flags=['-O2', '-DNDEBUG', '-fsanitize=thread'], ld=['-pthread']),
+    'plainR0': dict(cxx='g++', flags=['-O2', '-DNDEBUG', '-ftrivial-auto-var-init=zero'], ld=['-rdynamic', '-ldl']),
     'plain': dict(cxx='g++', flags=['-O1'], ld=[]),
     'plain0': dict(cxx='g++', flags=['-O1', '-ftrivial-auto-var-init=zero'], ld=['-rdynamic', '-ldl']),
     'plainP': dict(cxx='g++', flags=['-O1', '-ftrivial-auto-var-init=pattern'], ld=['-rdynamic', '-ldl']),
